@@ -118,21 +118,22 @@ type pcaller struct {
 }
 
 type pmachine struct {
-	t         *rapid.T
-	mu        sync.Mutex
-	dc        *pool.DC
-	max       int64
-	sched     *pbt.Sched
-	conns     []*fconn
-	callers   []*pcaller
-	log       []string
-	steps     []string
-	classes   map[string]bool
-	violation string // first C27 violation
-	v28       string // first C28 violation
-	closed    bool
-	closeDone bool
-	tornDown  bool
+	t          *rapid.T
+	mu         sync.Mutex
+	dc         *pool.DC
+	max        int64
+	sched      *pbt.Sched
+	conns      []*fconn
+	callers    []*pcaller
+	log        []string
+	steps      []string
+	classes    map[string]bool
+	violation  string // first C27 violation
+	v28        string // first C28 violation
+	closed     bool
+	closeDone  bool
+	tornDown   bool
+	allowClose bool
 
 	// pre-drawn plan for the in-mutex point "transfer-send"
 	cancelAtTransfer int // -1 = never; else on the n-th transfer
@@ -174,9 +175,10 @@ func newPMachine(t *rapid.T) *pmachine {
 			hooks = append(hooks, p)
 		}
 	}
-	if rapid.IntRange(0, 2).Draw(t, "cancelAtTransfer") == 0 {
-		m.cancelAtTransfer = rapid.IntRange(0, 2).Draw(t, "nthTransfer")
+	if rapid.Bool().Draw(t, "cancelAtTransfer") {
+		m.cancelAtTransfer = rapid.SampledFrom([]int{0, 0, 1, 2}).Draw(t, "nthTransfer")
 	}
+	m.allowClose = rapid.IntRange(0, 3).Draw(t, "allowClose") == 0
 	m.sched = pbt.NewSched(hooks...)
 	ncallers := rapid.IntRange(1, 5).Draw(t, "callers")
 	for i := 0; i < ncallers; i++ {
@@ -349,7 +351,7 @@ func (m *pmachine) step() {
 			}
 		}
 	}
-	if !m.closed {
+	if !m.closed && m.allowClose {
 		acts = append(acts, action{"closeDC", func() {
 			m.closed = true
 			go func() {
